@@ -7,7 +7,9 @@ package vgirpc
 
 // byte ranges (lo,hi pairs) of the two alphabets, for the non-forking verifAllInSet
 const verifC28IDSet = "AZaz09--..__~~"
-const verifC28URLSet = verifC28IDSet + "::/???##[[]]@@!!$$&&''(())**++,,;;==%%"
+// every byte except the double quote: the parsers take the bytes between the quotes verbatim, so the
+// round trip must hold for anything url.URL.String() can carry in a query (backslashes, non-printable runes, ...)
+const verifC28URLSet = "\x00\x21\x23\xff"
 
 // verifC28IDChar: the alphabet Validate() admits for the four credential fields
 // (clientIDPattern `^[A-Za-z0-9\-._~]+$`), written independently.
@@ -45,7 +47,7 @@ func verifC28MaxField() int {
 // Every parser recovers exactly the advertised value ("" when absent) for every
 // metadata value Validate() admits.
 //
-//verif:bound the four optional credential fields: every string of length 0..2 (quick) / 0..3 (thorough) over the validated alphabet; flag arbitrary; metadata URL = "https://h/" followed by 0..2 (quick) / 0..3 (thorough) arbitrary RFC 3986 URL characters. Longer values are outside the claim.
+//verif:bound the four optional credential fields: every string of length 0..2 (quick) / 0..3 (thorough) over the validated alphabet; flag arbitrary; metadata URL = "https://h/" followed by 0..2 (quick) / 0..3 (thorough) ARBITRARY bytes other than the double quote. Longer values are outside the claim.
 func verifH_C28_roundtrip() {
 	mf := verifC28MaxField()
 	m := &OAuthResourceMetadata{Resource: "https://h/", AuthorizationServers: []string{"https://as/"}}
@@ -72,7 +74,7 @@ func verifH_C28_roundtrip() {
 // A metadata URL whose own text ends in a parameter name followed by '=' must
 // not confuse the parameter scanner.
 //
-//verif:bound metadata URL = "https://h/?" + P + "=" for P any of the five parameter names, optionally followed by 0..1 URL characters; credential fields of length 0..1
+//verif:bound metadata URL = "https://h/?" + P + "=" for P any of the five parameter names, optionally followed by 0..1 arbitrary bytes other than the double quote; credential fields of length 0..1
 func verifH_C28_url_embeds_param() {
 	names := []string{"client_id", "client_secret", "device_code_client_id", "device_code_client_secret", "use_id_token_as_bearer"}
 	k := verifChoice("which", len(names))
